@@ -7,7 +7,11 @@ Trace acceptor for C08 / C09 (DelayQueue share).  Producer of the lines: harness
 A case is `new cap=<c> [elem=val]`, one line per call of the concurrent scenario (timed history: `sinv`/`sres`
 global sequence numbers, `tinv`/`tres` monotonic µs, `dl` the element's absolute deadline in the same
 unit, `rem` the returned element's `Delay()` right after the return, `len` the hook-observed length)
-and an `end` line (final length, capacity-conservation probe).
+and an `end` line (final length, capacity-conservation probe).  In an `elem=clk` case the elements' deadlines are
+instants of a WALL clock the scenario steps (`step` lines: bracketed instant and the skew in force afterwards) and one
+`Delay()` evaluation can be made slow (`stall` lines): "never early" is then judged at the end line against the largest
+wall-clock reading possible inside the call's bracket (`checkNeverEarlyClk`), the order / wake-up monitors are relaxed by
+exactly the steps and stalls of the case, and a stepped history is not replayed on the (monotone-clock) model.
 
 * `spec` mode (the oracle): exactly the monitors the property text states —
   never early (`tres ≥ dl`, `rem ≤ 0`), no element co-resident for the whole call expires earlier
@@ -49,13 +53,27 @@ structure CallRec where
   tres : Nat
   dl : Nat
   ctxUs : Nat := 0    -- the call's context: timeout in µs (0 = already cancelled), from the op line
+  rem : Int := 0      -- deq ok: the returned element's Delay() (ns) read right after the return
   jit : Option Nat := none   -- hang lines: the jitter measured so far
   deriving Inhabited
+
+/-- a `step` line of an `elem=clk` case: the scenario's wall clock was moved at some instant inside `[tinv, tres]`;
+    `skew` (µs, signed) is the offset wall − monotonic in force from that instant on -/
+structure StepRec where
+  sinv : Nat
+  sres : Nat
+  tinv : Nat
+  tres : Nat
+  skew : Int
 
 structure St where
   cap : Nat := 0
   disc : Disc := .async
   calls : Array CallRec := #[]
+  clk : Bool := false               -- elem=clk: deadlines are instants of the steppable wall clock
+  steps : Array StepRec := #[]
+  absStep : Nat := 0                -- Σ |delta| of the steps (µs)
+  stallUs : Nat := 0                -- Σ of the armed Delay() stalls (µs)
   broken : Bool := false      -- an earlier line of the case was unreadable / a call hung: skip whole-history checks
   active : Bool := false
 
@@ -146,12 +164,14 @@ def checkEarliest (tol : Nat) (cs : Array CallRec) : Option String :=
         some s!"{tm}Dequeue returned {c.id} (deadline {c.dl}) although {e.id} (deadline {e.dl}) was in the queue for the whole call"
       else none
 
-def checkWake (tm : String) (wakeBound : Nat) (cap : Nat) (cs : Array CallRec) : Option String :=
+/-- `lag` (µs): `elem=clk` cases only — by how much the wall clock was at most behind the monotonic clock; an
+    element is certainly expired from the monotonic instant `dl + lag` on -/
+def checkWake (tm : String) (wakeBound : Nat) (cap : Nat) (cs : Array CallRec) (lag : Nat := 0) : Option String :=
   firstSome cs.toList fun c =>
     if !c.isEnq && c.res == "ok" then
       match enqueuerOf cs c.id with
       | some e =>
-        let t0 := max c.tinv (max c.dl e.tres)
+        let t0 := max c.tinv (max (c.dl + lag) e.tres)
         if c.tres > t0 + wakeBound then
           some s!"{tm}Dequeue of {c.id} returned {c.tres - t0} us after the element was available and expired (lost or late wake-up)"
         else none
@@ -161,7 +181,7 @@ def checkWake (tm : String) (wakeBound : Nat) (cap : Nat) (cs : Array CallRec) :
         let present := match dequeuerOf cs e.id with
           | none => true
           | some d => c.sres < d.sinv
-        let t0 := max c.tinv (max e.dl e.tres)
+        let t0 := max c.tinv (max (e.dl + lag) e.tres)
         if present && c.tres > t0 + wakeBound then
           some s!"{tm}Dequeue stayed blocked (then ctx error) {c.tres - t0} us while {e.id} was in the queue and expired (lost wake-up)"
         else none
@@ -178,6 +198,41 @@ def checkWake (tm : String) (wakeBound : Nat) (cap : Nat) (cs : Array CallRec) :
         if others.length < cap && c.tres > t0 + wakeBound then
           some s!"{tm}Enqueue of {c.id} stayed blocked (then ctx error) {c.tres - t0} us while the queue had a free slot (lost wake-up)"
         else none
+    else none
+
+/-! ### never early on a steppable wall clock (`elem=clk`)
+
+`Delay()` of an element is `dl − (t + skew(t))`.  The skew takes the value `v` of a step from an instant inside the
+step's `[tinv, tres]` until the next change, which has happened by the `tres` of any step invoked (sequence number
+`sinv`) after this one responded (`sres`); the initial 0 is in force until the first change.  A Dequeue that returned `x` removed it at an instant
+of its `[tinv, tres]` bracket; if the wall clock cannot have reached `x`'s deadline at ANY instant of the bracket
+(the largest reading any skew value in force during the bracket allows is below the deadline), `x` was released
+while its `Delay()` was positive — whatever tick or signal the consumer acted on. -/
+
+/-- the windows `(value, earliest start, latest end)` of the skew values; `none` = never superseded -/
+def skewWindows (steps : Array StepRec) : List (Int × Nat × Option Nat) :=
+  let l := steps.toList
+  let endAfter (lo : Nat) : Option Nat :=
+    (l.filter (fun s => s.sinv > lo)).foldl (fun acc s => match acc with
+      | none => some s.tres
+      | some m => some (min m s.tres)) none
+  ((0 : Int), 0, endAfter 0) :: l.map fun s => (s.skew, s.tinv, endAfter s.sres)
+
+/-- the largest wall-clock reading (µs) possible at an instant of `[tinv, tres]` -/
+def maxWall (steps : Array StepRec) (tinv tres : Nat) : Int :=
+  (skewWindows steps).foldl (fun acc (v, a, b?) =>
+    let overlaps := a ≤ tres && (match b? with | none => true | some b => b ≥ tinv)
+    if !overlaps then acc else
+      let t := match b? with | none => tres | some b => min tres b
+      max acc ((t : Int) + v)) (-1000000000000000)
+
+def checkNeverEarlyClk (steps : Array StepRec) (cs : Array CallRec) : Option String :=
+  firstSome (okDeqs cs) fun c =>
+    let w := maxWall steps c.tinv c.tres
+    if w < (c.dl : Int) then
+      some s!"Dequeue returned element {c.id} {(c.dl : Int) - w} us BEFORE its deadline (wall clock of the scenario; Delay() read after the return: {c.rem} ns)"
+    else if steps.isEmpty && c.rem > 0 then
+      some s!"Dequeue returned element {c.id} whose Delay() is still positive ({c.rem} ns)"
     else none
 
 def checkEnd (tm : String) (cap : Nat) (cs : Array CallRec) (obs : String) : Option String :=
@@ -312,7 +367,8 @@ def parseCall (ws : List String) (obs : String) : Option CallRec :=
     if tok.startsWith "ok:" then
       let id ← (tok.drop 3).toString.toNat?
       return { thr, isEnq := false, id, res := "ok", ctxUs, sinv := ← fieldNat obs "sinv", sres := ← fieldNat obs "sres",
-               tinv := ← fieldNat obs "tinv", tres := ← fieldNat obs "tres", dl := ← fieldNat obs "dl" }
+               tinv := ← fieldNat obs "tinv", tres := ← fieldNat obs "tres", dl := ← fieldNat obs "dl",
+               rem := (fieldInt obs "rem").getD 1 }
     none
   | _, _ => none
 
@@ -322,14 +378,16 @@ def checker (model : Bool) : Checker where
   step st op obs :=
     let ws := words op
     match ws with
-    | ["new", capTok] | ["new", capTok, "elem=val"] =>   -- elem=val: the harness instantiates T with a value type
+    | ["new", capTok] | ["new", capTok, "elem=val"] | ["new", capTok, "elem=clk"] =>
+      -- elem=val: the harness instantiates T with a value type; elem=clk: with elements on a steppable wall clock
+      let clk := ws.contains "elem=clk"
       let want : Option Nat := if capTok.startsWith "cap=" then
           ((capTok.drop 4).toString.toInt?).map (fun i => if i < 0 then 0 else i.toNat) else none
       match want with
       | none => ({ broken := true }, some s!"bad-op {op}")
       | some c =>
         let disc : Disc := if field obs "disc" == some "sync" then .sync else .async
-        let st' : St := { cap := c, disc, active := true }
+        let st' : St := { cap := c, disc, active := true, clk }
         if resultTok obs != "ok" then ({ st' with broken := true }, some s!"constructor failed: {obs}")
         else if model && fieldNat obs "cap" != some c then (st', some s!"capacity want {c} got {(field obs "cap").getD "?"}")
         else (st', none)
@@ -340,19 +398,37 @@ def checker (model : Bool) : Checker where
       else
         let jit? := fieldNat obs "jit"
         let jit := jit?.getD 0
-        let tol := tieTol jit
+        -- elem=clk: a comparison of the heap that straddles a clock step or a slow Delay() evaluation reads its two
+        -- delays that far apart; the wall clock was at most `lag` behind the monotonic one
+        let tol := tieTol jit + st.absStep + st.stallUs
+        let lag := st.steps.foldl (fun m s => max m (-s.skew).toNat) 0
         let pfx := tmj jit?
         -- first everything that needs no timing assumption, then the second-scale bounds, then the tie-sensitive order
         let r := (checkStamps st.calls) <|> (checkExactlyOnce st.calls) <|> (checkCapHist st.cap st.calls)
+                  <|> (if st.clk then checkNeverEarlyClk st.steps st.calls else none)
                   <|> (checkEnd pfx st.cap st.calls obs)
-                  <|> (checkWake pfx (wakeBound + 4 * jit) st.cap st.calls)
+                  <|> (checkWake pfx (wakeBound + 4 * jit + st.stallUs) st.cap st.calls lag)
                   <|> (checkPrompt pfx (wakeBound + 4 * jit) st.calls)
                   <|> (checkEarliest tol st.calls)
-        let r := r <|> (if model then modelExplains ⟨st.disc, st.cap⟩ tol st.calls else none)
+        -- the model's clock is monotone: a history on a stepped wall clock is judged by the monitors alone
+        let r := r <|> (if model && st.steps.isEmpty then modelExplains ⟨st.disc, st.cap⟩ tol st.calls else none)
         ({ st with active := false }, r)
     | [_, _, "cancel", _, _] | [_, _, "await", _, _] | [_, _, "mark", _, _] =>
       -- scheduling directives of the scenario (explicit cancellation / barriers), not calls on the queue
       (st, none)
+    | [_, _, "stall", _, us] =>
+      if !st.clk then (st, some "stall outside an elem=clk case")
+      else match us.toNat? with
+        | some u => ({ st with stallUs := st.stallUs + u }, none)
+        | none => ({ st with broken := true }, some s!"bad-op {op}")
+    | [_, _, "step", delta, _] =>
+      if !st.clk then (st, some "step outside an elem=clk case")
+      else if resultTok obs != "ok" then ({ st with broken := true }, none)   -- its thread hung before it: reported there
+      else match delta.toInt?, fieldNat obs "tinv", fieldNat obs "tres", fieldInt obs "skew", fieldNat obs "sinv", fieldNat obs "sres" with
+        | some d, some tinv, some tres, some skew, some sinv, some sres =>
+          if tinv > tres || sinv ≥ sres || sinv == 0 then ({ st with broken := true }, some "harness: step with response stamp before its invocation stamp")
+          else ({ st with steps := st.steps.push ⟨sinv, sres, tinv, tres, skew⟩, absStep := st.absStep + d.natAbs }, none)
+        | _, _, _, _, _, _ => ({ st with broken := true }, some s!"bad-op {op}")
     | _ =>
       if !st.active then (st, some "no-case")
       else match parseCall ws obs with
@@ -363,8 +439,8 @@ def checker (model : Bool) : Checker where
         else
           let len := (fieldNat obs "len").getD 0
           if st.cap > 0 && len > st.cap then (st', some s!"length {len} exceeds capacity {st.cap}")
-          else if !c.isEnq && c.res == "ok" then
-            let rem := (fieldInt obs "rem").getD 1
+          else if !c.isEnq && c.res == "ok" && !st.clk then   -- elem=clk: judged at the end line (the steps are known then)
+            let rem := c.rem
             if c.tres < c.dl then (st', some s!"Dequeue returned element {c.id} {c.dl - c.tres} us BEFORE its deadline")
             else if rem > 0 then (st', some s!"Dequeue returned element {c.id} whose Delay() is still positive ({rem} ns)")
             else (st', none)
